@@ -194,17 +194,19 @@ wk! {
 
 //@ prop: C03 C04
 //@ tier: quick
-//@ what: Shared::enter passes exactly the number of unsubmitted entries to the kernel and, when the kernel accepted them, offers the freed room to the futures waiting for a slot (the waiting future is woken once); ETIME/EINTR are not errors, other errnos are returned
-//@ bound: ring of 2, full before the call, one waiter; kernel consumes 0..=2 entries; outcome in {Ok(consumed), ETIME, EINTR, EBADF} with the kernel contract "an error is only returned when nothing was consumed"
+//@ what: Shared::enter passes exactly the number of unsubmitted entries to the kernel and, when the kernel accepted them, offers whatever room there is afterwards to the futures waiting for a slot -- also when this very call consumed nothing but room had been made before (kernel thread, another thread's entry) -- the waiting future is woken once; ETIME/EINTR are not errors, other errnos are returned
+//@ bound: ring of 2 with 0..=2 unsubmitted entries before the call (symbolic), one waiter; kernel consumes 0..=unsubmitted entries; outcome in {Ok(consumed), ETIME, EINTR, EBADF} with the kernel contract "an error is only returned when nothing was consumed"
 //@ encodes: io_uring::Shared::enter; io_uring::Shared::wake_blocked_futures; io_uring::Shared::unsubmitted_submissions
 //@ stubs: crate::lock -> try_lock model; Waker -> direct calls; <core::io::CustomOwner as Drop>::drop -> no-op
 //@ assumes: io_uring_enter returns the number of consumed submissions when it consumed any (errors only when none were consumed)
 fn sm_enter_offers_room() {
-    k::sq_set(0, 2);
+    let unsub0: u32 = kani::any();
+    kani::assume(unsub0 <= 2);
+    k::sq_set(0, unsub0);
     let shared = k::build_shared(2, false, false);
     push_blocked(&shared, 1);
     let consumes: u32 = kani::any();
-    kani::assume(consumes <= 2);
+    kani::assume(consumes <= unsub0);
     let outcome: u8 = kani::any();
     kani::assume(outcome < 4);
     kani::assume(outcome == 0 || consumes == 0);
@@ -222,16 +224,20 @@ fn sm_enter_offers_room() {
     table.io_uring_enter2 = Some(enter_model);
     k::install(table);
     let r = shared.enter(1, libc::IORING_ENTER_GETEVENTS, Some(std::time::Duration::from_millis(1)));
-    assert!(unsafe { ENTER_TO_SUBMIT.v } == 2, "the kernel is told about every unsubmitted entry");
+    assert!(unsafe { ENTER_TO_SUBMIT.v } == unsub0, "the kernel is told about every unsubmitted entry");
     assert!(r.is_ok() == (outcome < 3), "timeout/interrupt are not errors");
-    if outcome == 0 && consumes > 0 {
-        assert!(k::wakes(0) == 1, "room became available: the waiting future is woken");
+    let room = unsub0 - consumes < 2;
+    if outcome == 0 && room {
+        // also when THIS call consumed nothing (consumes == 0): the room may have
+        // been made earlier, by the kernel thread or by another thread's entry
+        assert!(k::wakes(0) == 1, "successful kernel entry with room available: the waiting future is woken");
         assert!(blocked(&shared).is_empty());
     }
-    if consumes == 0 {
+    if !room {
         assert!(k::wakes(0) == 0 && blocked(&shared).len() == 1, "still full: keeps waiting");
     }
     kani::cover!(outcome == 0 && consumes == 2);
+    kani::cover!(outcome == 0 && consumes == 0 && unsub0 == 1, "nothing consumed by this call but room exists");
     kani::cover!(outcome == 1);
     kani::cover!(outcome == 3);
     std::mem::forget(r);
